@@ -146,6 +146,25 @@ func baseClients(r *rand.Rand) []ClientSpec {
 	return cs
 }
 
+// Clients whose grant_types and response_types are NOT aligned (possible for static clients and for
+// clients written through the ClientManager; DCR refuses them): hybrid response types without the
+// implicit grant, the implicit grant without its response types, the code response type without the
+// authorization_code grant.  The authorization endpoint itself has to keep each grant type and
+// response type to the clients registered for it.
+func misalignedClients() []ClientSpec {
+	allResp := []string{"code", "token", "id_token", "id_token token", "code id_token", "code token", "code id_token token"}
+	return []ClientSpec{
+		{ID: 10, Grants: []string{"authorization_code", "refresh_token"}, RespTypes: allResp,
+			Redirects: []string{"https://c10.example/cb"}, Scopes: "openid email profile"},
+		{ID: 11, Grants: []string{"authorization_code", "implicit", "refresh_token"}, RespTypes: []string{"code"},
+			Redirects: []string{"https://c11.example/cb"}, Scopes: "openid email", JWT: true},
+		{ID: 12, Grants: []string{"implicit", "refresh_token", "client_credentials"}, RespTypes: allResp,
+			Redirects: []string{"https://c12.example/cb"}, Scopes: "openid email profile"},
+		{ID: 13, Public: true, Grants: []string{"authorization_code"}, RespTypes: []string{"code", "code token", "code id_token"},
+			Redirects: []string{"https://c13.example/cb"}, Scopes: "openid profile"},
+	}
+}
+
 func cibaClients() []ClientSpec {
 	return []ClientSpec{
 		{ID: 5, Grants: []string{"urn:openid:params:grant-type:ciba", "refresh_token"}, Scopes: "openid email", CibaMode: "poll"},
@@ -194,10 +213,16 @@ func randomSpec(r *rand.Rand, flavour string, want map[string]bool) WorldSpec {
 		if r.Intn(4) == 0 {
 			name = "WithPKCERequired"
 		}
-		if r.Intn(2) == 0 {
+		// the default method alone, or both methods with either default
+		switch r.Intn(5) {
+		case 0:
 			opts = append(opts, Opt{Name: name, S: "S256", L: []string{"plain"}})
-		} else {
+		case 1:
 			opts = append(opts, Opt{Name: name, S: "plain", L: []string{"S256"}})
+		case 2, 3:
+			opts = append(opts, Opt{Name: name, S: "S256"})
+		case 4:
+			opts = append(opts, Opt{Name: name, S: "plain"})
 		}
 	}
 	if want["par"] || r.Intn(2) == 0 {
@@ -220,6 +245,9 @@ func randomSpec(r *rand.Rand, flavour string, want map[string]bool) WorldSpec {
 		opts = append(opts, Opt{Name: "WithIssuerResponseParameter"})
 	}
 	clients := baseClients(r)
+	if want["misaligned"] {
+		clients = append(clients, misalignedClients()...)
+	}
 	if want["ciba"] || r.Intn(3) == 0 {
 		opts = append(opts, Opt{Name: "WithCIBAGrant"})
 		if r.Intn(2) == 0 {
@@ -360,6 +388,10 @@ func (g *SysGen) randParams(c *ClientSpec) Params {
 	}
 	if len(c.RespTypes) > 0 {
 		p.RespType = pick(g.R, c.RespTypes)
+	}
+	if c.ID >= 10 && c.ID <= 13 && g.R.Intn(3) == 0 {
+		// a client of misalignedClients: every response type, registered for it or not
+		p.RespType = pick(g.R, []string{"code", "token", "id_token", "id_token token", "code id_token", "code token", "code id_token token"})
 	}
 	p.Scopes = g.randScopes(c)
 	p.Resources = g.randAuthResources()
@@ -611,6 +643,20 @@ func (g *SysGen) mvTokenCode() {
 			}
 		} else if g.R.Intn(4) == 0 {
 			op.Scope = subScopes(g.R, a.Granted)
+		}
+		if ch.Kind != 0 && a.Params.Method == "" && g.R.Intn(3) == 0 {
+			// the method was left to the server's default: the verifier that fits the OTHER reading of the
+			// challenge, the challenge string itself, a wrong one, none
+			switch g.R.Intn(4) {
+			case 0:
+				op.Verifier = ch
+			case 1:
+				op.Verifier = PK{Kind: 1, N: 7, LenOK: true}
+			case 2:
+				op.Verifier = PK{}
+			case 3:
+				op.Verifier = PK{Kind: 2, Inner: &PK{Kind: ch.Kind, N: ch.N, LenOK: ch.LenOK, Inner: ch.Inner}}
+			}
 		}
 		op.Resources = g.randTokenResources(a.GrantedRes)
 		a.Used = true
